@@ -974,7 +974,9 @@ def _conditional_overwrite(fn) -> bool:
                     and len(t.body) == 1 and isinstance(t.body[0], ast.Assign) and len(t.body[0].targets) == 1 \
                     and isinstance(t.body[0].targets[0], ast.Name) and t.body[0].targets[0].id == s.targets[0].id:
                 v = s.targets[0].id
-                reads_v = any(isinstance(n, ast.Name) and n.id == v for n in list(ast.walk(t.test)) + list(ast.walk(t.body[0].value)))
+                reads_v = any(isinstance(n, ast.Name) and n.id == v for n in ast.walk(t.body[0].value))
+                if not reads_v and any(isinstance(n, ast.Name) and n.id == v for n in ast.walk(t.test)) and not canon.roots_attrs(s.value)[2]:
+                    t.test = _SubstName(v, s.value).visit(t.test)  # the test reads the value just bound: the same expression
                 if not reads_v and not canon.roots_attrs(s.value)[2] and (_all_pure(t.test) or not canon.roots_attrs(t.test)[2]):
                     s.value = _ifexp(t.test, t.body[0].value, s.value)
                     b.pop(i + 1)
@@ -1448,6 +1450,7 @@ def nf_text(fn: ast.AST, sigs: Optional[Dict[str, List[str]]] = None, inline: bo
         _fix_empty(f)
         changed |= _tail_position_continue(f)
         _fix_empty(f)
+        changed |= _conditional_overwrite(f)  # before a consumer behind the `if` is distributed into its arms
         changed |= _ifs(f)
         changed |= _loops(f)
         _scope_binders(f, binder_counter)  # comprehensions made from loops get their own binders too
